@@ -42,6 +42,8 @@ fn sym_json(s: &Symbol) -> Json {
         ("tag", Json::s(tag(s))),
         ("name", Json::opt_s(&s.get_name())),
         ("qn", Json::opt_s(&s.get_qualified_name())),
+        ("det", Json::opt_s(&s.get_details())),
+        ("sig", Json::s(s.get_signature())),
         ("r", dump::range(s.get_range())),
         ("fr", dump::range(s.get_full_range())),
     ])
